@@ -64,9 +64,34 @@ func (f *indexRespFilter) validate() (err error) {
 
 	if _, err = filter.NewID(f.Key); err != nil {
 		errs = append(errs, fmt.Errorf("filterKey: %w", err))
+	} else if isReservedKey(f.Key) {
+		errs = append(errs, fmt.Errorf("filterKey: %q is reserved", f.Key))
 	}
 
 	return errors.Join(errs...)
+}
+
+// isReservedKey returns true if key cannot be the ID of a rule list from the
+// index.  The cache file of a rule list is named after its ID, so the ID must
+// name a file of its own within the cache directory, and not one of the files
+// that are already kept there and that the rule list would overwrite:  the
+// index files, the safe-search filters, and the hash-prefix filters.
+func isReservedKey(key string) (ok bool) {
+	switch key {
+	case
+		".",
+		"..",
+		indexFileNameBlockedServices,
+		indexFileNameRuleLists,
+		string(filter.IDAdultBlocking),
+		string(filter.IDGeneralSafeSearch),
+		string(filter.IDNewRegDomains),
+		string(filter.IDSafeBrowsing),
+		string(filter.IDYoutubeSafeSearch):
+		return true
+	default:
+		return false
+	}
 }
 
 // indexData is the data of a single item in the filtering-rule index response.
